@@ -197,6 +197,18 @@ ListApply(c, s, td) ==
             diag |-> IF td = "none" THEN Skipped(c, s) ELSE {}]]
 List(td) == LET r == ListApply(cfg, St, td) IN SetSt(r.st) /\ out' = r.out /\ UNCHANGED cfg
 
+\* trash-list --trash-dirs: the directories the reading commands would use, and the ones they refuse, with the reason;
+\* trash-list --volumes: the mounted volumes.  (A $topdir/.Trash that is a link to a sticky directory is refused as a link, one
+\* that is not sticky - linked or not - as not sticky; the home trash is named whether it exists or not.)
+ListDirsApply(c, s) ==
+  [st |-> s,
+   out |-> [cmd |-> "listdirs", exit |-> "ok",
+            found     |-> {t \in TDirs : ReadUsable(c, s, t)},
+            notsticky |-> {t \in Skipped(c, s) : c.top[TReg(t)] \in {"nonsticky", "linknonsticky"}},
+            symlink   |-> {t \in Skipped(c, s) : c.top[TReg(t)] = "linksticky"},
+            volumes   |-> c.mounted]]
+ListDirs == LET r == ListDirsApply(cfg, St) IN SetSt(r.st) /\ out' = r.out /\ UNCHANGED cfg
+
 -----------------------------------------------------------------------------
 (* trash-restore                                                           *)
 
